@@ -94,43 +94,33 @@ def _sanitised(ctx, expr, fn, sanitisers, depth=0):
 
 
 def rule_1(ctx):
+    """`$` is dropped from the coordinates of a reference before a cell is looked up, the sheet part stays as it is - decided by
+    interpreting the package's own remover(s) on witness spellings (also a sheet title that contains a `$`), by lemma L4 (the
+    terms of a formula: $-free, qualified with the formula's own sheet) and, end to end, by the $-variants of C03.5 / C03.9."""
     sans = _sanitiser_funcs(ctx)
-    am = ctx.mod('ast_nodes')
-    fa = am.func('RangeNode.full_address')
-    rets = value_returns(fa)
-    for r in rets:
-        ctx.expect(_sanitised(ctx, r.value, fa, sans), r, 'RangeNode.full_address result is $-free',
-                   'the address used to look up a cell keeps the absolute markers: =$A$1*2 reads an '
-                   'unknown key and evaluates to 0')
-    # the terms of a formula: $-free, qualified with the formula's own sheet, recomputed for every formula object
+    um = ctx.mod('utils')
+    if um.has_func('strip_absolute'):
+        sans.setdefault('pkg:utils:strip_absolute', (um, um.func('strip_absolute')))
     from . import corelemma
     corelemma.rule_formula_per_sheet(ctx)
-    # every use of tvalue as a cell key goes through full_address
-    ev = am.func('RangeNode.eval')
-    keys = [c for c in flow.calls_in(ev) if isinstance(c.func, ast.Attribute) and c.func.attr == 'eval_cell']
-    deps = flow.Deps(ev)
-    for c in keys:
-        src = deps.closure(names_in(c.args[0]))
-        via = any(isinstance(n, ast.Assign) and isinstance(n.value, ast.Call) and isinstance(n.value.func, ast.Attribute)
-                  and n.value.func.attr == 'full_address' and any(isinstance(t, ast.Name) and t.id in src for t in n.targets)
-                  for n in walk_local(ev))
-        from_registry = any(isinstance(n, (ast.For, ast.comprehension)) and names_in(n.target) & src
-                            for n in walk_local(ev))
-        ctx.expect(via or from_registry, c, f'eval_cell key `{ast.unparse(c.args[0])}`',
-                   'a cell is looked up with a key that neither comes from full_address() nor from the range registry')
-    # decision table of every sanitiser over witness spellings
     if not sans:
-        ctx.bad(fa, '$-remover exists', 'no function of the package removes $ from reference text')
+        ctx.bad(ctx.mod('ast_nodes').func('RangeNode.full_address'), '$-remover exists', 'no function of the package removes $ from reference text')
+    n = 0
     for ref, (m, fn) in sorted(sans.items()):
-        p = func_params(fn)[0]
+        params = func_params(fn)
+        if len(params) != 1 or '.' in ref.split(':', 2)[2]:
+            continue            # a method or a helper with further parameters: decided through its callers (C03.5 / C03.9)
         for inp, want in WITNESS:
-            it = Interp(ctx.a, m, {p: inp})
-            out = it.run(fn.body)
+            it = Interp(ctx.a, m, {'t': inp}, inline_pkg=True)
+            out = it.run(ast.parse(f'return {fn.name}(t)').body)
             got = out.value if out.end == 'return' else f'<{out.end}>'
+            if not isinstance(got, str) and out.end == 'return':
+                break           # not a text -> text remover after all
+            n += 1
             ctx.expect(got == want, fn, f'{fn.name}({inp!r})',
                        f'{fn.name}({inp!r}) yields {got!r}; the coordinates must lose their $ and the sheet '
                        f'name must stay as it is: {want!r}')
-    ctx.floor(14, 'sources/sinks + witness spellings')
+    ctx.floor(11, 'L4 + witness spellings')
 
 
 def rule_2(ctx):
@@ -143,7 +133,7 @@ def rule_2(ctx):
     # along a row: A1:EZ1 (156 columns), only EY1 populated; down a column: A1:A156, only A155 populated
     for construct, cells, formula_addr, want in (
             ('break out of the cell loop depends on cell values', {'A1': 1, 'EY1': 40, 'A2': '=SUM(A1:EZ1)', 'A3': '=COUNT(A1:EZ1)'}, ('A2', 'A3'), (41, 2)),
-            ('break out of the row loop depends on cell values', {'A1': 1, 'A155': 40, 'B1': '=SUM(A1:A156)', 'B2': '=COUNT(A1:A156)'}, ('B1', 'B2'), (41, 2))):
+            ('a populated cell below a long run of empty rows is seen', {'A1': 1, 'A155': 40, 'B1': '=SUM(A1:A156)', 'B2': '=COUNT(A1:A156)'}, ('B1', 'B2'), (41, 2))):
         wb = W.Workbook(ctx, cells)
         got = tuple(wb.value('Sheet1!' + a) for a in formula_addr)
         ok = all(S.same(g, w) for g, w in zip(got, want))
@@ -319,12 +309,10 @@ def rule_6(ctx):
         ('Sheet1!Z9', ('Sheet1', [['Sheet1!Z9']])),
         ('Sheet1!Y1:AB1', ('Sheet1', [['Sheet1!Y1', 'Sheet1!Z1', 'Sheet1!AA1', 'Sheet1!AB1']])),
     ]
+    from . import values as V
     for text, want in cases:
-        env = {p[0]: text}
-        if len(p) > 1:
-            env[p[1]] = 'Sheet1'
-        it = Interp(ctx.a, um, env, call_models=_range_models(), scope_fn=rr)
-        out = it.run(rr.body)
+        it = Interp(ctx.a, um, {'t': text}, call_models=V.openpyxl_models(), inline_pkg=True)
+        out = it.run(ast.parse("return resolve_ranges(t, 'Sheet1')").body)
         got = out.value if out.end == 'return' else f'<{out.end} {out.value!r}>'
         if isinstance(got, tuple):
             got = (got[0], [list(r) for r in got[1]])
@@ -334,35 +322,30 @@ def rule_6(ctx):
 
 
 def rule_7(ctx):
-    """Siblings resolve_address / resolve_ranges: the sheet part of a reference text is unquoted by resolve_sheet."""
+    """Siblings resolve_address / resolve_ranges / resolve_sheet: the sheet part of a reference text is unquoted - decided by
+    interpreting the three functions on witness texts (plain, quoted, quoted with blanks around, quoted with a doubled apostrophe)."""
+    from . import values as V
     um = ctx.mod('utils')
-    for name in ('resolve_address', 'resolve_ranges'):
-        fn = um.func(name)
-        splits = [a for a in walk_local(fn) if isinstance(a, ast.Assign) and isinstance(a.value, ast.Call)
-                  and isinstance(a.value.func, ast.Attribute) and a.value.func.attr in ('split', 'partition', 'rpartition')
-                  and a.value.args and isinstance(a.value.args[0], ast.Constant) and a.value.args[0].value == '!'
-                  and isinstance(a.targets[0], ast.Tuple)]
-        if not splits:
-            raise AnchorMissing(f'{name}: split of the reference text at "!"')
-        sheet_raw = splits[0].targets[0].elts[0].id
-        deps = flow.Deps(fn)
-        # every use of the raw sheet text must be the argument of resolve_sheet
-        later = [flow.pos(a) for a in walk_local(fn) if isinstance(a, ast.Assign) and a is not splits[0]
-                 and any(isinstance(t, ast.Name) and t.id == sheet_raw for t in a.targets) and flow.pos(a) > flow.pos(splits[0])]
-        horizon = min(later) if later else (10 ** 9, 0)
-        uses = [n for n in walk_local(fn) if isinstance(n, ast.Name) and n.id == sheet_raw and isinstance(n.ctx, ast.Load)
-                and flow.end_pos(splits[0]) <= flow.pos(n) < horizon]
-        ok = bool(uses) and all(isinstance(u._parent, ast.Call) and ctx.res.resolve(u._parent.func, um) == 'pkg:utils:resolve_sheet'
-                                for u in uses)
-        ctx.expect(ok, fn, f'{name}: sheet text goes through resolve_sheet',
-                   f'{name} uses the sheet part of the reference text without unquoting it with resolve_sheet: a reference such as '
-                   "'My Sheet'!$A$1:$B$2 (a defined name on a sheet whose title needs quotes) yields addresses with the quotes, "
-                   'which are not keys of the cells map')
-    rs = um.func('resolve_sheet')
-    rets = value_returns(rs)
-    ok = any('quoted' in ast.unparse(r.value) and 'notquoted' in ast.unparse(r.value) for r in rets)
-    ctx.expect(ok, rs, 'resolve_sheet returns the quoted or the unquoted group', 'resolve_sheet no longer returns the bare sheet title')
-    ctx.floor(3, 'sheet unquoting siblings')
+
+    def run(src, text):
+        it = Interp(ctx.a, um, {'t': text}, call_models=V.openpyxl_models(), inline_pkg=True)
+        out = it.run(ast.parse(src).body)
+        return out.value if out.end == 'return' else f'<{out.end} {out.value!r}>'
+    for text, sheet in (('Sheet1!A1:B2', 'Sheet1'), ("'My Sheet'!A1:B2", 'My Sheet'), ("'Data 2'!$C$3", 'Data 2'), ('Data!C3', 'Data')):
+        got = run('return resolve_ranges(t)', text)
+        ok = isinstance(got, tuple) and got[0] == sheet and all(str(c).startswith(sheet + '!') for r in got[1] for c in r)
+        ctx.expect(ok, um.func('resolve_ranges'), f'resolve_ranges: sheet text goes through resolve_sheet ({text})',
+                   f'resolve_ranges({text!r}) yields {got!r}: the sheet part must be the bare title {sheet!r} - addresses that keep the quotes '
+                   'are not keys of the cells map')
+    for text, want in (('Sheet1!B2', ('Sheet1', 'B', '2')), ("'My Sheet'!B2", ('My Sheet', 'B', '2')), ("'Data 2'!AA10", ('Data 2', 'AA', '10'))):
+        got = run('return resolve_address(t)', text)
+        ctx.expect(tuple(got) == want if isinstance(got, (tuple, list)) else False, um.func('resolve_address'),
+                   f'resolve_address: sheet text goes through resolve_sheet ({text})', f'resolve_address({text!r}) yields {got!r}, expected {want!r}')
+    for text, want in (('Sheet1', 'Sheet1'), ("'My Sheet'", 'My Sheet'), (" 'My Sheet' ", 'My Sheet'), ('My Sheet', 'My Sheet'), ('Data_2', 'Data_2')):
+        got = run('return resolve_sheet(t)', text)
+        ctx.expect(got == want, um.func('resolve_sheet'), f'resolve_sheet returns the quoted or the unquoted group ({text!r})',
+                   f'resolve_sheet({text!r}) yields {got!r}, expected the bare sheet title {want!r}')
+    ctx.floor(12, 'sheet unquoting witnesses')
 
 
 def rule_8(ctx):
